@@ -186,20 +186,20 @@ theorem fracPart_brk (v : List Nat) (n : Nat) (x : List Nat) {d : Nat} (hd : isL
         · simp at h; omega
 
 
-theorem expPart_brk (v : List Nat) (n : Nat) (x : List Nat) {d : Nat} (hd : isLineBreak d = true) (r : List Nat) :
-    expPart v n (x ++ d :: r) = expPart v n (x ++ [10]) ∧
-    (∀ v' n', expPart v n (x ++ [10]) = .ok (v', n') → n' ≤ n + x.length) := by
+theorem expPartBody_brk (v : List Nat) (n : Nat) (x : List Nat) {d : Nat} (hd : isLineBreak d = true) (r : List Nat) :
+    expPartBody v n (x ++ d :: r) = expPartBody v n (x ++ [10]) ∧
+    (∀ v' n', expPartBody v n (x ++ [10]) = .ok (v', n') → n' ≤ n + x.length) := by
   have hdE : ¬ (d = 101 ∨ d = 69) := by rcases isLineBreak_cases hd with rfl | rfl <;> decide
   have hdS : ¬ (d = 45 ∨ d = 43) := by rcases isLineBreak_cases hd with rfl | rfl <;> decide
   have h95 := fun y => head?_brk_ne y hd r (show (95:Nat) ≠ 10 by decide) (by decide)
   cases x with
   | nil =>
     simp only [List.nil_append]
-    unfold expPart
+    unfold expPartBody
     simp [hdE]
   | cons c x =>
     simp only [List.cons_append]
-    unfold expPart
+    unfold expPartBody
     by_cases hc : (c = 101 ∨ c = 69)
     · simp only [Bool.or_eq_true, decide_eq_true_eq, hc, ↓reduceIte, h95 x]
       by_cases hu : (x ++ [10]).head? = some 95
@@ -231,6 +231,18 @@ theorem expPart_brk (v : List Nat) (n : Nat) (x : List Nat) {d : Nat} (hd : isLi
             simp at r2 ⊢; omega
     · simp [hc]
 
+
+theorem expPart_brk (v : List Nat) (n : Nat) (x : List Nat) {d : Nat} (hd : isLineBreak d = true) (r : List Nat) :
+    expPart v n (x ++ d :: r) = expPart v n (x ++ [10]) ∧
+    (∀ v' n', expPart v n (x ++ [10]) = .ok (v', n') → n' ≤ n + x.length) := by
+  obtain ⟨e1, e2⟩ := expPartBody_brk v n x hd r
+  unfold expPart
+  rw [atExponent_brk x hd r, e1]
+  refine ⟨rfl, ?_⟩
+  intro v' n' h
+  split at h
+  · exact e2 v' n' h
+  · simp at h; omega
 
 theorem drop_brk {x : List Nat} {n : Nat} (h : n ≤ x.length) (t : List Nat) :
     (x ++ t).drop n = x.drop n ++ t := List.drop_append_of_le_length h
